@@ -431,6 +431,11 @@ def run_task(desc):
             cases.append(b"\x03\xe8" + reason)
             cases.append(b"\x0f\xa0" + b"x" + reason)
         cfgs = [None] + [(pre, f, sk) for pre in ("fresh", "connected") for f in (0, 1) for sk in (0, 1) if (pre, f, sk) != ("fresh", 0, 0)]
+        # close frames that are completely full (2-byte code + 123 reason bytes) and frames one byte short of that: the reason ends in every class
+        for name, reason, ok in UTF8_REASONS:
+            for total in (123, 122):
+                if len(reason) <= total:
+                    cases.append(b"\x03\xe8" + b"r" * (total - len(reason)) + reason)
         for body in cases:
             for api in ("recv_data_frame", "recv_frame", "recv"):
                 for cfg in cfgs:
